@@ -299,7 +299,8 @@ func RunCase(c *pkit.Ctx, rt *rapid.T, s *Subject, o Options) *Outcome {
 			}
 			return keep
 		}
-		meta := map[string]any{"entry": "conc", "harness": o.Harness, "harness_seed": strconv.FormatUint(seed, 10), "checks": o.Checks, "go126": o.Go126, "race": o.Race}
+		meta := map[string]any{"entry": "conc", "harness": o.Harness, "harness_seed": strconv.FormatUint(seed, 10), "checks": o.Checks, "go126": o.Go126, "race": o.Race,
+			"env": o.Env, "patterns": o.Patterns, "test_run": o.TestRun}
 		if strings.Contains(out.HarnessOut, "WARNING: DATA RACE") {
 			i := strings.Index(out.HarnessOut, "WARNING: DATA RACE")
 			c.Fail(rt, map[string]string{"check": "data-race"}, "the race detector reported a data race\n last configuration: "+last+"\n"+pkit.Trunc(out.HarnessOut[i:], 2500), keepFiles(), meta)
@@ -349,7 +350,8 @@ func RunCase(c *pkit.Ctx, rt *rapid.T, s *Subject, o Options) *Outcome {
 		}
 		keep["p/derived.gen.go.observed"] = string(derived)
 		c.Fail(rt, v.Signature, v.Message+"\n--- harness output (tail)\n"+tailStr(out.HarnessOut, 2500), keep,
-			map[string]any{"entry": entry, "harness": o.Harness, "harness_seed": strconv.FormatUint(seed, 10), "checks": o.Checks, "go126": o.Go126, "race": o.Race})
+			map[string]any{"entry": entry, "harness": o.Harness, "harness_seed": strconv.FormatUint(seed, 10), "checks": o.Checks, "go126": o.Go126, "race": o.Race,
+			"env": o.Env, "patterns": o.Patterns, "test_run": o.TestRun})
 	}
 	return out
 }
@@ -423,13 +425,36 @@ func Replay(c *pkit.Ctx, dir string) (bool, string) {
 	cd := c.CaseDir()
 	defer os.RemoveAll(cd)
 	gorun.WriteFiles(cd, files)
-	res := gorun.RunGoderive(cd, "./p")
+	patterns := []string{"./p"}
+	if _, ok := files["p2/calls.go"]; ok {
+		patterns = append(patterns, "./p2")
+	}
+	res := gorun.RunGoderive(cd, patterns...)
 	if res.Exit != 0 {
 		return false, "goderive: " + res.Stderr
+	}
+	model := strings.HasSuffix(harness, "m")
+	if model {
+		if err := ModelAfterGenerate(c)(cd); err != nil {
+			return false, "no report: model rewrite: " + err.Error()
+		}
 	}
 	gobin := gorun.Go
 	if go126 {
 		gobin = gorun.Go126
+	}
+	hasHarness := false
+	for k := range files {
+		if strings.HasPrefix(k, "h/") {
+			hasHarness = true
+		}
+	}
+	// The case includes that goderive accepts the subject and that its output compiles (check=generation).
+	if b := gobin(cd, 15*time.Minute, append([]string{"build"}, patterns...)...); b.Exit != 0 {
+		return false, "derived.gen.go does not compile: " + b.Stderr
+	}
+	if !hasHarness {
+		return true, ""
 	}
 	targs := []string{"test", "-c", "-o", "h.test"}
 	if race {
@@ -437,13 +462,25 @@ func Replay(c *pkit.Ctx, dir string) (bool, string) {
 	}
 	b := gobin(cd, 15*time.Minute, append(targs, "./h")...)
 	if b.Exit != 0 {
-		return false, "build: " + b.Stderr
+		return false, "no report: the saved harness does not build: " + b.Stderr
 	}
 	repPath := filepath.Join(cd, "rep.json")
 	env := append(os.Environ(), "VERIF_REPORT="+repPath, "VERIF_PROPERTY="+c.Property, "VERIF_ONLY_ENTRY="+entry,
 		"VERIF_FINDINGS="+filepath.Join(verif, "known_findings.json"))
-	_ = harness
-	hr := gorun.Run(filepath.Join(cd, "h"), 20*time.Minute, env, filepath.Join(cd, "h.test"), "-test.run", "^TestH", "-test.timeout", "0",
+	testRun := "^TestH"
+	if tr, _ := meta["test_run"].(string); tr != "" {
+		testRun = tr
+	} else if model {
+		testRun = "^TestHModel$"
+	}
+	if xs, ok := meta["env"].([]any); ok {
+		for _, x := range xs {
+			if kv, _ := x.(string); kv != "" && !strings.HasPrefix(kv, "VERIF_CASELOG=") {
+				env = append(env, kv)
+			}
+		}
+	}
+	hr := gorun.Run(filepath.Join(cd, "h"), 20*time.Minute, env, filepath.Join(cd, "h.test"), "-test.run", testRun, "-test.timeout", "0",
 		"-rapid.checks="+strconv.Itoa(int(checksF)), "-rapid.seed="+seedS, "-rapid.nofailfile")
 	rep, err := vrep.Read(repPath)
 	if err != nil {
